@@ -2,6 +2,7 @@
 // run-time-loop branches that dynamic shapes take) and with RUN-TIME axes / reps / shifts.
 #include "viewob.hpp"
 #include "nmtools/array/view/transpose.hpp"
+#include "nmtools/array/index/scatter.hpp"
 #include "nmtools/array/view/moveaxis.hpp"
 #include "nmtools/array/view/tile.hpp"
 #include "nmtools/array/view/repeat.hpp"
@@ -26,6 +27,39 @@ void ob_c03_dyn_transpose_none(const arr_hs<float,N>& a, const std::array<size_t
         for_<R>([&](auto I){ eshape[I.value] = rd<R-1-I.value>(a.shape_); esrc[R-1-I.value] = dst[I.value]; });
         VIEW_OBLIGATIONS("C03","dyn_transpose_none", v, a, R, R, dst, eshape, esrc, 0);
     }
+}
+// ---- transpose(a, axes) with COMPILE-TIME axes on a bounded-dim array (the destination index has a run-time length, the axes do not)
+template <size_t N, size_t... P>
+void ob_c03_dyn_transpose_ct(const arr_hs<float,N>& a, const std::array<size_t,sizeof...(P)>& dst_)
+{
+    constexpr size_t R = sizeof...(P); constexpr size_t p[R] = {P...};
+    const auto dst = dst_;
+    ASSUME(a.shape_.size() == R);
+    auto mv = view::transpose(a, nmtools_tuple{meta::ct_v<P>...});
+    if constexpr (meta::is_maybe_v<decltype(mv)>) OBLIGE("C03.dyn_transpose_ct.valid", static_cast<bool>(mv), R);
+    if (nm::has_value(mv)) {
+        const auto& v = nm::unwrap(mv);
+        std::array<size_t,R> eshape{}, esrc{};
+        for_<R>([&](auto I){ eshape[I.value] = rd<p[I.value]>(a.shape_); esrc[p[I.value]] = dst[I.value]; });
+        VIEW_OBLIGATIONS("C03","dyn_transpose_ct", v, a, R, R, dst, eshape, esrc, (p[0]*100 + (R>1?p[R>1?1:0]:0)*10 + (R>2?p[R>2?2:0]:0)));
+    }
+}
+// ---- index::scatter(vec, idx)[idx[i]] = vec[i] for every combination of fixed / bounded run-time-length vec and compile-time / run-time idx
+template <class KV, class KI, size_t... P>
+void ob_c03_scatter(const mk_t<KV,size_t,sizeof...(P)>& vec_, const mk_t<KI,size_t,sizeof...(P)>& idx_)
+{
+    constexpr size_t R = sizeof...(P); constexpr size_t p[R] = {P...};
+    const auto vec = vec_; const auto idx = idx_;
+    assume_len<R>(vec); assume_len<R>(idx);
+    for_<R>([&](auto I){ ASSUME(rd<I.value>(idx) == p[I.value]); });
+    constexpr long tag = (p[0]*100 + (R>1?p[R>1?1:0]:0)*10 + (R>2?p[R>2?2:0]:0));
+    { auto r = nm::index::scatter(vec, idx);
+      OBLIGE("C03.scatter.rt_idx.len", (size_t)nm::len(r) == R, kid<KV>, kid<KI>, tag);
+      for_<R>([&](auto I){ OBLIGE("C03.scatter.rt_idx.element_i_goes_to_position_idx_i", (size_t)gx<p[I.value]>(r) == (size_t)rd<I.value>(vec), kid<KV>, kid<KI>, tag, I.value); }); }
+    if constexpr (std::is_same_v<KI,k_std>) {
+      auto r = nm::index::scatter(vec, nmtools_tuple{meta::ct_v<P>...});
+      OBLIGE("C03.scatter.ct_idx.len", (size_t)nm::len(r) == R, kid<KV>, tag);
+      for_<R>([&](auto I){ OBLIGE("C03.scatter.ct_idx.element_i_goes_to_position_idx_i", (size_t)gx<p[I.value]>(r) == (size_t)rd<I.value>(vec), kid<KV>, tag, I.value); }); }
 }
 // ---- transpose(a, axes) with run-time axes (a permutation given as std::array<size_t,R>), fixed-rank array
 template <size_t N, size_t R, size_t... P>
@@ -140,6 +174,13 @@ MVI(24,3,3,0) MVI(24,3,0,3) MVI(24,3,-4,0) MVI(12,2,2,0)
 RP(12,2,0) RP(12,2,1) RP(12,2,-1) RP(24,3,1) RP(24,3,-3)
 #define RL(N,R,A) template void ob_c04_rt_roll<N,R,A>(const arr_f<float,N,R>&, int, int, const std::array<size_t,R>&);
 RL(12,2,0) RL(12,2,-1) RL(24,3,1) RL(24,3,-2)
+
+#define DT(N,...) template void ob_c03_dyn_transpose_ct<N,__VA_ARGS__>(const arr_hs<float,N>&, const std::array<size_t,std::array<size_t,0>{}.size() + sizeof((size_t[]){__VA_ARGS__})/sizeof(size_t)>&);
+DT(12,1,0) DT(24,2,0,1) DT(24,1,2,0) DT(24,0,2,1) DT(48,3,0,1,2)
+#define SC(KV,KI,...) template void ob_c03_scatter<KV,KI,__VA_ARGS__>(const mk_t<KV,size_t,sizeof((size_t[]){__VA_ARGS__})/sizeof(size_t)>&, const mk_t<KI,size_t,sizeof((size_t[]){__VA_ARGS__})/sizeof(size_t)>&);
+SC(k_std,k_std,1,0) SC(k_std,k_std,2,0,1) SC(k_std,k_std,1,2,0) SC(k_std,k_std,3,0,1,2)
+SC(k_sv,k_std,1,0) SC(k_sv,k_std,2,0,1) SC(k_sv,k_std,1,2,0) SC(k_sv,k_std,3,0,1,2)
+SC(k_sv,k_sv,2,0,1) SC(k_sv,k_sv,1,2,0) SC(k_std,k_sv,2,0,1)
 
 void ob_c03b_negctl(const arr_f<float,24,3>& a, int src, int dstax)
 {
